@@ -272,7 +272,8 @@ func genC12(t *rapid.T) c12Case {
 	c.End = nextDay + rapid.IntRange(0, 6).Draw(t, "end")
 	var allDays []vRec
 	var allDayNums []int
-	bulk := false // set once a block with hundreds of different foods was appended: later days reuse those names
+	bigDone := false // set once a day gave the food "big~u" a huge amount
+	bulk := false    // set once a block with hundreds of different foods was appended: later days reuse those names
 	bulkName := func(rt *rapid.T) string { return fmt.Sprintf("bulk %d", rapid.IntRange(0, 1799).Draw(rt, "bulkn")) }
 	genDay := func(rt *rapid.T, day int, minEntries int) vRec {
 		ne := rapid.IntRange(minEntries, 5).Draw(rt, "nent")
@@ -371,6 +372,32 @@ func genC12(t *rapid.T) c12Case {
 			}
 			bulk = true
 			push("many-foods", []vRec{{Head: vFmtDay(d, ""), HL: vGenHeadLayout(rt, lo, "hl"), Lines: lines}}, []int{d})
+		},
+		"big-then-small": func(rt *rapid.T) {
+			// a food whose running total is huge (first time), and later days on which a small amount of it is followed
+			// directly by another food: what is lost in the huge sum must not turn up anywhere else
+			if exact || rapid.IntRange(0, 2).Draw(rt, "rare") != 0 {
+				rt.Skip("inexact histories only, drawn rarely")
+			}
+			d := nextDay
+			nextDay++
+			rec := genDay(rt, d, 1)
+			plainL := vLayout{Indent: "  ", Sep: ": ", EOL: "\n"}
+			if !bigDone {
+				rec.Lines = append(rec.Lines, vLine{Kind: vkEntry, Name: "big~u", Num: []string{"1000000000000000", "4503599627370497", "-2000000000000000", "300000000000000"}[rapid.IntRange(0, 3).Draw(rt, "bigv")], L: plainL})
+				bigDone = true
+			} else {
+				at := rapid.IntRange(0, len(rec.Lines)).Draw(rt, "smallat")
+				after := "after~big"
+				if rapid.Bool().Draw(rt, "afterfood") {
+					after = foods[rapid.IntRange(0, len(foods)-1).Draw(rt, "afterfoodi")]
+				}
+				two := []vLine{
+					{Kind: vkEntry, Name: "big~u", Num: []string{"0.3", "0.1", "-0.7", "0.05", "1.1"}[rapid.IntRange(0, 4).Draw(rt, "smallv")], L: plainL},
+					{Kind: vkEntry, Name: after, Num: []string{"5", "0.125", "2.5", "1"}[rapid.IntRange(0, 3).Draw(rt, "afterv")], L: plainL}}
+				rec.Lines = append(rec.Lines[:at], append(two, rec.Lines[at:]...)...)
+			}
+			push("big-then-small", []vRec{rec}, []int{d})
 		},
 		"multi-day": func(rt *rapid.T) {
 			n := rapid.IntRange(2, 3).Draw(rt, "n")
